@@ -155,7 +155,6 @@ func hasOrdinalVariant(k string) bool {
 	return false
 }
 
-
 // forwardedCallees: the package functions whose results a function hands on unchanged in every return
 // (`return f(..)`), or nil when it does anything else with them.
 func forwardedCallees(p *Prog, g *ssa.Function) []string {
@@ -191,7 +190,6 @@ func forwardedCallees(p *Prog, g *ssa.Function) []string {
 	}
 	return out
 }
-
 
 // handedToParent: the error value ev of the function literal fn is stored (directly or through a phi) into a free
 // variable, and the enclosing function returns the content of the variable bound to it as its error result.
